@@ -9,7 +9,7 @@ table agrees with the kernels' dependence; (4) wrapper semantics; (5) the guaran
 forwards the alignment flag only when asserted, alignment hints only under the asserted flag."""
 from astdb import AnalysisBroken, walk
 from interp import Interp, Obj, Cell, Ptr, Region, Thrown, Ref
-from kernels import make_suv
+from kernels import make_suv, is_wrapper_update
 from poly import Poly
 from guarded import all_vars, same
 import lifecycle
@@ -57,7 +57,7 @@ def check_single_assignment(db, rep, tier):
                     if reg is tgt:
                         counts[off] = counts.get(off, 0) + 1
                 bad = [k for k in range(d * d) if counts.get(k, 0) != 1]
-                stray = [(idx, fn, where) for idx, fn, where in hooks.reads if not fn.endswith('Wrapper::operator+=')]
+                stray = [(idx, fn, where) for idx, fn, where in hooks.reads if not is_wrapper_update(fn)]
                 extra = [k for k in counts if not (0 <= k < d * d)]
                 if bad:
                     rep.fail('A.single', site, unit.loc(cf), 'every target slot written exactly once', 'slot %d written %d times' % (bad[0], counts.get(bad[0], 0)), cf['name'])
@@ -103,7 +103,7 @@ def check_traits(db, rep, only=None):
         if only is not None and op not in only:
             continue
         n += 1
-        fas = db.one('instantiate', 'squids::SU_vector::assignProxy<squids::detail::AssignWrapper, %s>' % pcls)
+        fas = proxies.assign_proxy_fn(db, 'AssignWrapper', pcls)
         elementwise = const_in(fas, 'elementwise')
         arity = const_in(fas, 'vector_arity')
         if elementwise is None:
@@ -153,9 +153,10 @@ def check_wrappers(db, rep):
             'IncrementWrapper': (lambda T, x: T + x, 'squids::SU_vector::operator+=', 0),
             'DecrementWrapper': (lambda T, x: T - x, 'squids::SU_vector::operator-=', 0)}
     for w, (f, applied, resize) in want.items():
-        fop = db.one('instantiate', 'squids::detail::%s::operator+=' % w, 1)
+        wq = proxies.wrapper_type(db, w)
+        fop = db.one('instantiate', wq + '::operator+=', 1)
         reg = Region('cellv', 1, lambda k: Poly.var('T'))
-        o = Obj('squids::detail::' + w)
+        o = Obj(wq)
         o.field('v').value = Ptr(reg, 0)
         it = Interp(unit, proxies.ProxyHooks())
         it.call(fop, Cell(o, None, 0, 'w'), [Poly.var('x')])
@@ -164,15 +165,26 @@ def check_wrappers(db, rep):
             rep.ok('A.wrapper')
         else:
             rep.fail('A.wrapper', w + '::operator+=', unit.loc(fop), 'stores %s' % f(Poly.var('T'), Poly.var('x')), str(got), fop['name'])
-        fap = db.find('instantiate', 'squids::detail::%s::apply<squids::SU_vector>' % w)
+        fap = db.find('instantiate', wq + '::apply<squids::SU_vector>')
         if not fap:
             raise AnalysisBroken('%s::apply<SU_vector> not instantiated' % w)
-        calls = [n.get('callee') for n in walk(fap[0]['body']) if n.get('k') in ('CXXOperatorCallExpr', 'CXXMemberCallExpr')]
-        if calls == [applied]:
+        # apply(target, source) is what the evaluate-through-a-temporary path uses: interpreted on two vectors
+        tcell, treg = make_suv('target', 2, 'T')
+        scell, sreg = make_suv('source', 2, 'x')
+        it2 = Interp(unit, proxies.ProxyHooks())
+        try:
+            it2.call(fap[0], None, [tcell, scell])
+            tp = tcell.value.fields['components'].value
+            got2 = [tp.region.cell(tp.off + k).value for k in range(4)]
+            ok2 = all(isinstance(g, Poly) and g.equals(f(Poly.var('T%d' % k), Poly.var('x%d' % k))) for k, g in enumerate(got2))
+            found = 'component 0 becomes %s' % (got2[0],)
+        except Thrown as t:
+            ok2, found = False, 'throw: %s' % t.what
+        if ok2:
             rep.ok('A.wrapper')
         else:
-            rep.fail('A.wrapper', w + '::apply', unit.loc(fap[0]), 'applies %s' % applied, 'calls %s' % calls, fap[0]['name'])
-        fas = db.one('instantiate', 'squids::SU_vector::assignProxy<squids::detail::%s, squids::detail::AdditionProxy>' % w)
+            rep.fail('A.wrapper', w + '::apply', unit.loc(fap[0]), 'applies %s: component k becomes %s' % (applied, f(Poly.var('T0'), Poly.var('x0'))), found, fap[0]['name'])
+        fas = proxies.assign_proxy_fn(db, w, 'squids::detail::AdditionProxy')
         ar = const_in(fas, 'allowTargetResize')
         if ar is not None and int(ar) == resize:
             rep.ok('A.wrapper')
